@@ -19,7 +19,7 @@ func init() {
 		Name:  "EXEC",
 		Doc:   "who may run user code; the planning run is zeroed; run-once memoization",
 		Run:   runExec,
-		Floor: map[string]int{"EXEC-X1": 5, "EXEC-X2": 4, "EXEC-X3": 2, "EXEC-X4": 1, "EXEC-X5": 2, "EXEC-X6": 1, "EXEC-X7": 1, "EXEC-X8": 3, "ONCE-O1": 2, "ONCE-O2": 2, "ONCE-O4": 3, "ONCE-O5": 1, "ONCE-O6": 1},
+		Floor: map[string]int{"EXEC-X1": 5, "EXEC-X2": 4, "EXEC-X3": 2, "EXEC-X4": 1, "EXEC-X5": 2, "EXEC-X6": 1, "EXEC-X7": 1, "EXEC-X8": 3, "ONCE-O1": 2, "ONCE-O2": 2, "ONCE-O4": 5, "ONCE-O5": 1, "ONCE-O6": 1},
 	})
 }
 
@@ -961,6 +961,49 @@ func runOnce(c *Ctx, exec *ssa.Function, fnField, onceField, memoField string) {
 		})
 	}
 	c.R.Add("ONCE-O4", "NewFunc|copies-flag", "NewFunc", posOf(p, nf), copied, "NewFunc copies the builder's run-once flag into the Func", fmt.Sprintf("ok=%v", copied))
+	// every other constructor (a package-level function returning *Func or []*Func that takes options) hands its
+	// options on to NewFunc: an option that is accepted and dropped makes FuncOnce a no-op for that creation route
+	if nf != nil {
+		for _, g := range p.ArgFuncs() {
+			if g == nf || g.Parent() != nil || g.Signature.Recv() != nil || g.Object() == nil || !g.Object().Exported() || !g.Signature.Variadic() {
+				continue
+			}
+			res := g.Signature.Results()
+			if res.Len() != 2 || !isErrorType(res.At(1).Type()) {
+				continue
+			}
+			rt := core.TypeStr(res.At(0).Type())
+			if rt != "*Func" && rt != "[]*Func" {
+				continue
+			}
+			optsP := g.Params[len(g.Params)-1]
+			if core.TypeStr(optsP.Type()) != "[]Arg" {
+				continue
+			}
+			nCalls, fwd := 0, true
+			for _, ci := range p.RegionCalls(g) {
+				if ci.Common().StaticCallee() != nf {
+					continue
+				}
+				nCalls++
+				a := ci.Common().Args
+				ok := false
+				for _, sv := range p.ISources(a[len(a)-1]) {
+					if sv == ssa.Value(optsP) {
+						ok = true
+					}
+				}
+				if !ok {
+					fwd = false
+				}
+			}
+			if nCalls == 0 {
+				continue
+			}
+			c.R.Add("ONCE-O4", core.FuncName(g)+"|forwards-options", core.FuncName(g), p.Pos(g.Pos()), fwd,
+				"a constructor that accepts options hands them on to NewFunc (so FuncOnce, FuncName and default arguments take effect on every creation route)", fmt.Sprintf("ok=%v", fwd))
+		}
+	}
 	// the executor and its private steps (memo accessors that only it reaches)
 	inExec := func(f *ssa.Function) bool {
 		return f == exec || (p.PrivateHelper(core.Outer(f)) && p.InRegion(f, exec) && c.onlyReachedFrom(core.Outer(f), exec))
